@@ -342,7 +342,10 @@ impl Operator {
                 }
             }
             Operator::Contains => {
-                if let (Some(l), Some(r)) = (left.as_string_ref(), right.as_string_ref()) {
+                if let Value::Array(items) = left {
+                    // `Order.Items contains "laptop"`: membership test on an array-valued field
+                    items.contains(right)
+                } else if let (Some(l), Some(r)) = (left.as_string_ref(), right.as_string_ref()) {
                     l.contains(r)
                 } else {
                     false
